@@ -4,7 +4,7 @@ medium, and the direct predicate of the property on the implementation trace."""
 import ssm_common as S
 
 PROP = 'C04'
-COQ_TARGETS = ['theories/SsmFacts.vo', 'theories/SsmC04.vo', 'theories/SsmC04t.vo', 'theories/SsmC05.vo']
+COQ_TARGETS = ['theories/SsmFacts.vo', 'theories/SsmC04.vo', 'theories/SsmC04t.vo', 'theories/SsmC04s.vo', 'theories/SsmC05.vo']
 COQ_IMPORTS = S.COQ_IMPORTS
 RULE = ('cases: one confirmed request between two nodes (max-APDU 50..206, all 16 segmentation pairs, windows 1..8, retries 0..3, '
         'timeouts 250..3000 ms, payloads around every segment boundary, every kind of answer incl. silence and a slow application) under '
@@ -28,7 +28,7 @@ def fixed_grid(rng):
 
 def cases(rng, tier):
     out = []
-    n = 2500 if tier == 'thorough' else 420
+    n = 6000 if tier == 'thorough' else 420
     for i in range(n):
         out.append(S.scenario_case(S.gen_transaction(rng, big=(i % 10 == 0)), 'transaction'))
     for spec in fixed_grid(rng):
@@ -49,9 +49,9 @@ def cases(rng, tier):
 
 def direct(rng, tier, focus=()):
     big = tier == 'thorough'
-    fams = [('transaction', lambda r: S.gen_transaction(r, big=r.random() < 0.1), 30000 if big else 2500),
-            ('concurrent', lambda r: S.gen_concurrent(r), 1500 if big else 120),
-            ('capability', lambda r: S.gen_capability(r), 3000 if big else 300)]
+    fams = [('transaction', lambda r: S.gen_transaction(r, big=r.random() < 0.1), 80000 if big else 2500),
+            ('concurrent', lambda r: S.gen_concurrent(r), 3000 if big else 120),
+            ('capability', lambda r: S.gen_capability(r), 8000 if big else 300)]
     failures, stats = S.direct_families(rng, fams, S.check_c04, focus)
     for spec in fixed_grid(rng):
         tr, fs = S.run_checked(spec, S.check_c04)
